@@ -164,3 +164,55 @@ Definition table_ok (nvals nbits : nat) : bool :=
   forallb (fun s => forallb (fun m =>
       Bool.eqb (and_int s m) (and_bits s m nbits) && Bool.eqb (or_int s m) (or_bits s m nbits))
     (zrange0 nvals)) (zrange0 nvals).
+
+(* ------------------------------------------------------------------ *)
+(* runners for the correspondence (harness/c20.py) *)
+Inductive pdfop :=
+| QAdd (p : pdfobj) (g : gparg)
+| QGet (g : gparg)
+| QGetK (d : od Z)          (* get_pdf(make_key(d)) *)
+| QHas (g : gparg)
+| QHasK (d : od Z).
+
+Definition key_of (d : od Z) : Z :=
+  match make_dict_hash H_test (DDict d) with Ok k => k | Err _ => -1 end.
+
+(* result codes: add 0 | -err; get pid | -err; contains 0/1 | -err;
+   finally -7 and the ids of the stored PDFs in dictionary order *)
+Definition pdfset_trace (ops : list pdfop) : list Z :=
+  let '(s, out) :=
+    fold_left (fun st o =>
+      let '(s, out) := st in
+      match o with
+      | QAdd p g => let (s', r) := pdfset_add H_test s p g in
+                    (s', out ++ [res_code (fun _ => 0) r])
+      | QGet g => (s, out ++ [res_code pid (pdfset_get H_test s g)])
+      | QGetK d => (s, out ++ [res_code pid (pdfset_get H_test s (GInt (key_of d)))])
+      | QHas g => (s, out ++ [res_code b2z (pdfset_contains H_test s g)])
+      | QHasK d => (s, out ++ [res_code b2z (pdfset_contains H_test s (GInt (key_of d)))])
+      end) ops ([], []) in
+  out ++ [-7] ++ map (fun kv => pid (snd kv)) s.
+
+(* all sequences over `vals` of length <= n, shortest first *)
+Fixpoint seqs_exact (vals : list Z) (n : nat) : list (list Z) :=
+  match n with
+  | O => [[]]
+  | S k => flat_map (fun v => map (cons v) (seqs_exact vals k)) vals
+  end.
+Fixpoint seqs_upto (vals : list Z) (n : nat) : list (list Z) :=
+  match n with
+  | O => [[]]
+  | S k => seqs_upto vals k ++ seqs_exact vals (S k)
+  end.
+
+Definition resb (r : res bool) : Z := res_code b2z r.
+
+(* the 16 x 16 table of (and_check, or_check) on ints *)
+Definition int_table (nvals : nat) : list (list (Z * Z)) :=
+  map (fun s => map (fun m => (resb (and_check s (SInt m)), resb (or_check s (SInt m))))
+                    (zrange0 nvals)) (zrange0 nvals).
+
+(* per stage: results for every mask sequence of length <= len *)
+Definition seq_table (nvals : nat) (len : nat) : list (list (Z * Z)) :=
+  map (fun s => map (fun ms => (resb (and_check s (SSeq ms)), resb (or_check s (SSeq ms))))
+                    (seqs_upto (zrange0 nvals) len)) (zrange0 nvals).
